@@ -402,6 +402,13 @@ def check_library(ctx, lib):
     import goalkinds
 
     goalkinds.check_goal_kinds(ctx, lib, "C14.K5.goal-kinds")
+    # "terms denote the written term" as reported: walk* rebuilds lists cell by cell (improper tails
+    # kept) and compounds field by field; `!=` re-checks all its pairs in one substitution
+    import C02
+    import traversal
+
+    traversal.run_table(ctx, lib, "C14.K5.walk-star-is-deep", only=["walk_star"])
+    C02.check_run(ctx, lib, "C14.K3K6.diseq-recheck")
     # the conjunction node constructors keep both goals (a constant-folding slip drops conjuncts)
     streams.check_conj_new(ctx, lib, "C14.K6.conj-new", "crate::operator::conj::Conj::new", "Goal", "Conj")
     streams.check_conj_new(ctx, lib, "C14.K6.conj-new", "crate::operator::conj::InferredConj::new", "G", "InferredConj")
